@@ -45,7 +45,7 @@ func c19Instantiate(t *rapid.T, pattern string) string {
 	}
 	// percent-encoded separators and dots: routers that match on the encoded path and middlewares that look at
 	// the decoded one do not see the same segments
-	rep("ledger", []string{"l1", "default", "_info", "_bulk", "transactions", "a-b_c", "x", "team%2Fpay", "l1%2f", "%2e%2e", "l%201", "a%3Ab", "l1%3Fx"})
+	rep("ledger", []string{"l1", "default", "fresh1", "fresh2", "_info", "_bulk", "transactions", "a-b_c", "x", "team%2Fpay", "l1%2f", "%2e%2e", "l%201", "a%3Ab", "l1%3Fx"})
 	rep("id", []string{"0", "1", "42", "abc", "18446744073709551616", "-1", "0%2F1", "%30"})
 	rep("address", []string{"a", "users:001", "a:b:c", "world", "bad--addr", "users%3A001", "a%2Fb"})
 	rep("key", []string{"k", "a-b", "x y", "kyc%2Flevel", "k%2fx"})
@@ -90,6 +90,9 @@ func TestC19(t *testing.T) {
 			return
 		}
 		roBackend, rwBackend := httpsim.NewFakeBackend(), httpsim.NewFakeBackend()
+		// some ledger names do not exist yet (v1 creates a ledger on first use, v2 answers not found)
+		fresh := func(name string) bool { return strings.HasPrefix(name, "fresh") }
+		roBackend.Missing, rwBackend.Missing = fresh, fresh
 		ro, rw := httpsim.NewRouter(roBackend, true), httpsim.NewRouter(rwBackend, false)
 		route := rapid.SampledFrom(rwRoutes).Draw(rt, "route")
 		if rapid.Bool().Draw(rt, "preferWriteRoute") {
